@@ -308,14 +308,18 @@ def _c12(tier, seed):
     if not q:
         runs += ["H_C12_store_load(8,10,1)", "H_C12_truncated(9,12)"]
     return [dict(name="files", pkg="internal/session", harness=["harness/session/c12.go"], runs=runs, solver="z3", walllimit=300, timeout=1500,
-                 validate_runs=["H_C12_codec(3,8,4)", "H_C12_store_load(3,3,0)", "H_C12_paths(3)", "H_C12_missing()"], veclen=200)]
+                 validate_runs=["H_C12_codec(3,8,4)", "H_C12_store_load(3,3,0)", "H_C12_paths(3)", "H_C12_missing()"], veclen=200),
+            dict(name="resume", pkg=".", harness=NET_HARNESS + ["harness/root/c16.go", "harness/root/c12r.go"],
+                 runs=["H_C12_resume(%d,%d,%d)" % (c, k, h) for c, k, h in ([(0, 3, 5), (1, 3, 5), (2, 2, 4), (3, 3, 5)] if q else [(0, 6, 9), (1, 6, 9), (2, 6, 9), (3, 3, 5), (1, 0, 0)])],
+                 solver="z3", walllimit=300, timeout=1500, replay=False, validate=False, crash_tags=["process-survives"],
+                 noreplay_reason="the scenario writes through the symbolic file system and hooks the transport factory inside the engine")]
 
 PROPS = {
     "C12": dict(
         jobs=_c12,
-        bounds={"quick": "codec round trip for keys/hashes of lengths {0,1,3,5}/{0,2,8,3} (every residue mod 3 of base64), every 64-bit salt, hostnames of 0..9 bytes over [A-Za-z0-9.:_[]-]; Store/Load/Store/Load on one path with every pair of modification times t1 <= t2 <= t1+255 s (equality included), same and fresh loader, second session shorter or longer than the first; missing file; relative, ./relative, sub-directory, absolute paths and the bare file name; the written file cut at every byte",
+        bounds={"quick": "codec round trip for keys/hashes of lengths {0,1,3,5}/{0,2,8,3} (every residue mod 3 of base64), every 64-bit salt, hostnames of 0..9 bytes over [A-Za-z0-9.:_[]-]; Store/Load/Store/Load on one path with every pair of modification times t1 <= t2 <= t1+255 s (equality included), same and fresh loader, second session shorter or longer than the first; missing file; relative, ./relative, sub-directory, absolute paths and the bare file name; the written file cut at every byte; resume: NewMTProto on a file written by the store (symbolic key, key id, salt, address) with no / a different / the same configured host resumes with exactly those values, dials the stored address and sends its first request encrypted under the stored salt with no key exchange; without a file it starts unkeyed on the configured host",
                 "thorough": "keys 0..6, hashes {0,3,8}, hostnames {0,5,12}; longer sessions for the history and truncation scenarios"},
-        outside="real file I/O and the OS's torn-write behaviour (symbolic one-level file system: os.Stat/ReadFile/WriteFile/Chtimes/Truncate modelled); real encoding/json (modelled for flat string structs without escapes: hostnames needing JSON escaping, non-ASCII, are outside); resuming a client from the store (NewMTProto)",
+        outside="real file I/O and the OS's torn-write behaviour (symbolic one-level file system: os.Stat/ReadFile/WriteFile/Chtimes/Truncate modelled); real encoding/json (modelled for flat string structs without escapes: hostnames needing JSON escaping, non-ASCII, are outside); real sockets on resume (transport factory hooked inside the engine)",
         assumptions=["encoding/base64.StdEncoding modelled exactly by bit arithmetic (line breaks in input are not skipped)", "encoding/json modelled as a canonical writer / object parser for structs of plain strings", "os file functions modelled by an in-memory map; WriteFile stamps the stub clock"],
     ),
     "C19": dict(
